@@ -129,6 +129,10 @@ BENIGN = [
     ("ok:string_ctor", "string('x') == 'x'", False), ("ok:attr_read", "r.c.a.b", False), ("ok:canary_value", "r.c", False),
     ("ok:canary_cmp", "r.c == 1", False), ("ok:helper_on_canary", "upper(r.c)", False),
     ("ok:field_contains_canary", "field_contains(r.c, ['a'], ['b'])", False), ("ok:kw", "field_equals(r, ['s'], ['ABC'], nocase=True)", False),
+    # helpers handed a LIST FIELD of the record as their strings argument: whatever they do to fold case, the record's own
+    # list keeps its entries
+    ("ok:helper_strings_field", "field_equals(r, ['s'], r.l)", False), ("ok:helper_strings_field2", "field_contains(r, ['s'], r.l)", False),
+    ("ok:helper_strings_field3", "field_contains(r, ['s'], r.l, word_boundary=True)", False),
     ("ok:type", "Type.string == 'abc'", False), ("ok:missing_attr", "r.s.nosuch", False), ("ok:any_canary", "any(x for x in [r.c])", False),
 ]
 # contexts: {H} is replaced by the shape; every context evaluates H at least once on the records used
@@ -258,7 +262,7 @@ def _record(log, trip):
     from flow.record import RecordDescriptor
     if "desc" not in _state:
         _state["desc"] = RecordDescriptor("t/c09", [("string", "s"), ("varint", "n"), ("string[]", "l"), ("string", "c")])
-    rec = _state["desc"](s="abc", n=5, l=["a", "b"], c="placeholder",
+    rec = _state["desc"](s="abc", n=5, l=["a", "B"], c="placeholder",
                          _generated=datetime.datetime(2020, 1, 1, tzinfo=datetime.timezone.utc))
     cs = _make_canary_str(log)
     object.__setattr__(rec, "s", cs("abc"))
@@ -272,7 +276,7 @@ def _snapshot(rec):
 
 
 MODEL_RECORD = ["rec", "t/c09", [["s", "string", ["str", "abc"]], ["n", "varint", ["int", "5"]],
-                                ["l", "string[]", ["list", [["str", "a"], ["str", "b"]]]], ["c", "string", ["foreign", 100]],
+                                ["l", "string[]", ["list", [["str", "a"], ["str", "B"]]]], ["c", "string", ["foreign", 100]],
                                 ["_source", "string", ["none"]], ["_classification", "string", ["none"]],
                                 ["_generated", "datetime", ["fval", "datetime", ["int", "1577836800000000"]]],
                                 ["_version", "varint", ["int", "1"]]]]
